@@ -18,26 +18,26 @@ READY = ["C01", "C02", "C03", "C04", "C05", "C06", "C07", "C08", "C09", "C10", "
 PENDING = "check not built yet in this session (planned in DESIGN.md section 4); not claimed until it exists"
 
 TECH = {
-    "C02": "abstract interpretation of the parser / encoder / test-client source over symbolic events (value-path purity, framing constants vs decoder regex languages, urlencoded writer/reader table agreement)",
-    "C04": "abstract interpretation of the routing source with concrete rule configurations and opaque values (quoting tables, converter pairs, builder wiring, match pairing, query encoding, default converter table, URL assembly)",
-    "C01": "constant folding + regex width analysis; typestate over the decoder's branches",
-    "C03": "CFG statement order, class-attribute folding over the converter hierarchy, sibling-loop cross-check",
-    "C05": "sanitiser-dominance provenance over every store into header storage; guard-set extraction; CFG return-shape rules",
-    "C06": "constant folding + regex class algebra (writer alphabet vs reader classes); offset-constant cancellation",
-    "C07": "exception-effect analysis over the resolved call graph with handler lattice; loop progress rule",
-    "C08": "MRO-resolved reachability of primitive mutations from public methods; case-fold tag agreement; freshness provenance",
-    "C09": "CFG dominance (bounded reads, error routing), who-may-use of the underlying stream, return-table of get_input_stream",
-    "C10": "guard-dominates-growth on the CFG; keyword forwarding chain; non-interference (use classification of limit values)",
-    "C11": "def-use from parsed validators to comparison methods; CFG dominance of method gate; single-source rule for 206",
-    "C12": "taint over urlunsplit slots of router-made redirect URLs",
-    "C13": "constant folding + regex class algebra, exhaustive over 256 byte values; AST shape rules for attribute assembly",
-    "C14": "CFG dominance (normalise-then-reject), provenance of filesystem sinks, regex class algebra for secure_filename",
-    "C15": "constant folding of per-component safe/keep-quoted tables vs RFC 3986 delimiter sets; codec pairing",
-    "C16": "MRO-resolved mutator exhaustiveness with notification post-dominance; header-name agreement read vs write-back",
-    "C17": "CFG dominance of q filter and selection gate; sort-key shape",
-    "C18": "copy-on-write effect analysis (SHARED/FRESH tags) over ContextVar payloads; late-binding placement rule",
-    "C19": "guard algebra (truth table) for the chunking decision; CFG framing rules; exception-effect of the de-chunker",
-    "C20": "guard algebra over the debugger dispatch chain; CFG dominance of host checks; return-edge rules for host matching",
+    "C01": "constant folding + regex width analysis; typestate over the decoder's branches; path executor for skip / deletion / state agreement; bounded table evaluation of the hold-back anchor (own source-level evaluator)",
+    "C02": "abstract interpretation of the parser / encoder / test-client source over symbolic events (value-path purity, framing constants vs decoder regex languages, urlencoded writer/reader table agreement, Content-Disposition reader on a finite family)",
+    "C03": "value-per-path analyses on the CFG (search order, handler mapping, rule loops as truth tables); string-end analysis for parser/matcher anchoring agreement; abstract interpretation of sample maps (interpreter shared with C04)",
+    "C04": "abstract interpretation of the routing source with concrete rule configurations and opaque values (quoting tables, converter pairs, builder wiring, match pairing, query encoding, default converter table, URL assembly, match-is-an-observation histories)",
+    "C05": "sanitiser-dominance provenance over every store into header storage; guard-set extraction; return-shape rules; close-count on the inlined call graph",
+    "C06": "symbolic summaries of header writers / readers with regex class algebra; bounded evaluation of small pure functions over finite families by shape class (own AST evaluator, no werkzeug import)",
+    "C07": "exception-effect analysis over the resolved call graph with handler lattice and value-origin (Flow) analysis; loop progress from path facts; decode-handler value rule; regex backtracking shape rule",
+    "C08": "path-wise event executor over the MRO-resolved inlined call graph (mutation / comparison / raise events); case-fold agreement; freshness provenance; removal-loop, get() and pickle-state rules",
+    "C09": "normalised symbolic paths with canonical linear atoms: bounded reads, position accounting, error routing, outcome table of get_input_stream, sample evaluation of get_content_length",
+    "C10": "guard-dominates-growth on symbolic paths (engine shared with C09); keyword forwarding chain; non-interference by use classification of limit values",
+    "C11": "truth table of the validator precedence by path-wise evaluation; literal / flag guard reading; def-use from parsed validators to comparison methods; single-source rule for 206; bounded evaluation of the range parser",
+    "C12": "structured taint over the urlunsplit slots of router-made redirect URLs; constant executor for scheme and host positions; predicate and sort-key tables; may-flow into the redirect signal",
+    "C13": "regular-language computation over method x anchors x flags for the fast path; value-level abstract interpretation of the cookie writer / parser; exhaustive byte tables",
+    "C14": "per-path value classes for normalise-then-reject; origin sets over conditional arms for filesystem sinks; base-containment history; regex class algebra for secure_filename",
+    "C15": "origin analysis with codec pairing over URL components; folded safe / keep-quoted tables vs RFC 3986 delimiter sets; constant evaluator for the host / args readers",
+    "C16": "event automata over path-wise execution of the mutators (notification post-dominance, pairing invariants); decision tables for typed setters; header-name agreement read vs write-back",
+    "C17": "regex language algebra for q values; statement-level evaluator over order-type scenarios and bounded offer sequences; inclusion order of specificity keys",
+    "C18": "copy-on-write effect analysis (SHARED/FRESH tags) over ContextVar payloads; per-iteration release analysis on the split-atom CFG; abstract empty-payload runs; late-binding placement rule",
+    "C19": "truth-table admission for the chunking decision; arithmetic path proofs for the de-chunker; per-path evaluation of the header loop on sample names; stream premise table",
+    "C20": "path-wise symbolic decisions over the debugger dispatch (gates decided before effects); return-edge conditions for host matching; data-flow dependence of the PIN hash",
 }
 
 
